@@ -18,6 +18,16 @@ package) reaches an estimator root, it records
   ``GA`` abstract (body only raises), ``GX`` inherited from scikit-learn, ``GR`` some path completes
   without ever reaching the guard, ``GU attr`` fitted state (``attr``) touched before the guard.
 
+* for ``fit`` (own or inherited): ``FF owner returns flag early`` - what the completing paths of the body
+  return (``self`` iff every ``return`` returns ``self``, possibly through a delegated fit-like method
+  of ``self`` / ``super()``), whether ``self._is_fitted = True`` has been executed on every completing
+  path (``set`` / ``unset`` / ``some``; through calls on ``self`` / ``super()`` too) and whether such
+  an assignment is followed by anything but ``return`` (``early``); ``FA`` abstract, ``FX`` scikit-learn's;
+* the three base facts of ``sktime/base/_base.py``: the flag value ``BaseEstimator.__init__`` stores,
+  that the ``is_fitted`` property returns that flag, and the condition under which
+  ``check_is_fitted`` raises (translated to a Gallina boolean function) together with the resolved
+  name of the exception class.
+
 Anything it does not understand raises ``Unsupported`` (the harness reports a broken tie).
 The table is printed as Gallina (`C04/Gen.v`); the decision "is this row acceptable" is taken in Coq.
 """
@@ -567,6 +577,100 @@ class Table:
             return ("GR", self.key[owner])
         return ("GG", self.key[owner])
 
+    # ---------------------------------------------------------------- fit facts
+    def fit_status(self, k):
+        """None (no fit in the table's code) | ('FA', owner) | ('FX', base) |
+        ('FF', owner, returns, flag, early)."""
+        r = self.find_method(k, "fit")
+        if r is None:
+            return None
+        return self._fit_status_of(k, r, ())
+
+    def _fit_status_of(self, k, r, stack):
+        if r[0] == "ext":
+            return ("FX", r[1][2])
+        owner, fn = r
+        if (owner, fn.name) in stack:
+            return None
+        body = list(fn.body)
+        if body and isinstance(body[0], ast.Expr) and isinstance(body[0].value, ast.Constant) \
+                and isinstance(body[0].value.value, str):
+            body = body[1:]
+        if all(isinstance(s, (ast.Raise, ast.Pass)) for s in body):
+            return ("FA", self.key[owner])
+        an = _FitAnalysis(self, k, owner, stack + ((owner, fn.name),))
+        g = an.block(body, False)
+        if g != BOTTOM:
+            an.rets.append(("none", g))
+        kinds = sorted(set(x[0] for x in an.rets))
+        flags = set(x[1] for x in an.rets)
+        ret = "self" if kinds == ["self"] else " | ".join(kinds)
+        flag = "set" if flags == {True} else ("unset" if flags == {False} else "some")
+        return ("FF", self.key[owner], ret, flag, an.early)
+
+    # ---------------------------------------------------------------- base facts
+    def base_facts(self):
+        """Facts of sktime.base._base.BaseEstimator that the fitted-state model rests on."""
+        k = ("sktime.base._base", "BaseEstimator")
+        if k not in self.allc:
+            raise Unsupported("sktime.base._base.BaseEstimator not found")
+        node = self.allc[k]["node"]
+        fns = {s.name: s for s in node.body if isinstance(s, ast.FunctionDef)}
+        for need in ("__init__", "is_fitted", "check_is_fitted"):
+            if need not in fns:
+                raise Unsupported("BaseEstimator.%s not found" % need)
+
+        def body_of(fn):
+            b = list(fn.body)
+            if b and isinstance(b[0], ast.Expr) and isinstance(b[0].value, ast.Constant) \
+                    and isinstance(b[0].value.value, str):
+                b = b[1:]
+            return b
+        # __init__: exactly the assignments to self; the flag must be a boolean constant
+        init_flag = None
+        for s_ in body_of(fns["__init__"]):
+            if (isinstance(s_, ast.Assign) and len(s_.targets) == 1 and isinstance(s_.targets[0], ast.Attribute)
+                    and isinstance(s_.targets[0].value, ast.Name) and s_.targets[0].value.id == "self"):
+                if s_.targets[0].attr == "_is_fitted":
+                    if not (isinstance(s_.value, ast.Constant) and isinstance(s_.value.value, bool)):
+                        raise Unsupported("BaseEstimator.__init__: _is_fitted = %s" % ast.unparse(s_.value))
+                    init_flag = s_.value.value
+            else:
+                raise Unsupported("BaseEstimator.__init__: statement %s" % type(s_).__name__)
+        # is_fitted: a property whose body is `return self._is_fitted`
+        b = body_of(fns["is_fitted"])
+        reads = (_is_property(fns["is_fitted"]) and len(b) == 1 and isinstance(b[0], ast.Return)
+                 and ast.unparse(b[0].value) == "self._is_fitted")
+        # check_is_fitted: `if <cond>: raise <Exc>(...)` and nothing else
+        b = body_of(fns["check_is_fitted"])
+        if not (len(b) == 1 and isinstance(b[0], ast.If) and not b[0].orelse and len(b[0].body) == 1
+                and isinstance(b[0].body[0], ast.Raise) and isinstance(b[0].body[0].exc, ast.Call)
+                and isinstance(b[0].body[0].exc.func, ast.Name)):
+            raise Unsupported("BaseEstimator.check_is_fitted: not of the shape `if <cond>: raise E(...)`")
+
+        def cond(e):
+            if isinstance(e, ast.UnaryOp) and isinstance(e.op, ast.Not):
+                return "(negb %s)" % cond(e.operand)
+            if isinstance(e, ast.BoolOp):
+                op = "andb" if isinstance(e.op, ast.And) else "orb"
+                out = cond(e.values[0])
+                for v in e.values[1:]:
+                    out = "(%s %s %s)" % (op, out, cond(v))
+                return out
+            if isinstance(e, ast.Constant) and isinstance(e.value, bool):
+                return "true" if e.value else "false"
+            if ast.unparse(e) in ("self.is_fitted", "self._is_fitted"):
+                if ast.unparse(e) == "self.is_fitted" and not reads:
+                    raise Unsupported("check_is_fitted reads a property is_fitted that is not the flag")
+                return "is_fitted"
+            raise Unsupported("BaseEstimator.check_is_fitted: condition %s" % ast.unparse(e))
+        exc_name = b[0].body[0].exc.func.id
+        r = self._export(k[0], exc_name)
+        if r is None or r[0] != "cls":
+            raise Unsupported("check_is_fitted raises %s, which is not a class of the package" % exc_name)
+        return {"init_flag": init_flag, "reads": reads, "guard": cond(b[0].test),
+                "raises": "%s.%s" % (r[1], r[2])}
+
     def ctor_params(self, k):
         """Parameter names of the effective __init__ (first one along the MRO)."""
         r = self.find_method(k, "__init__")
@@ -644,7 +748,7 @@ class Table:
         mutates = self._mutation_facts(k)
         return {"key": self.key[k], "module": k[0], "name": k[1], "bases": bases,
                 "init": self._init_facts(k), "methods": methods, "path": c["path"],
-                "mutates": mutates,
+                "mutates": mutates, "fit": self.fit_status(k),
                 "abstract": k[1].startswith("_") or k[1].startswith("Base")}
 
 
@@ -864,6 +968,133 @@ class _GuardAnalysis:
         return g
 
 
+class _FitAnalysis:
+    """Path-sensitive walk of a fit-like body.  Path state: has `self._is_fitted = True` been
+    executed (True / False / "some").  Collects per completing path what is returned and the state."""
+
+    def __init__(self, table, k, owner, stack):
+        self.t, self.k, self.owner, self.stack = table, k, owner, stack
+        self.rets = []
+        self.early = False
+
+    @staticmethod
+    def join(a, b):
+        if a == BOTTOM:
+            return b
+        if b == BOTTOM:
+            return a
+        return a if a == b else "some"
+
+    @staticmethod
+    def flag_assign(s):
+        if isinstance(s, ast.Assign) and len(s.targets) == 1:
+            t = s.targets[0]
+            if (isinstance(t, ast.Attribute) and isinstance(t.value, ast.Name) and t.value.id == "self"
+                    and t.attr == "_is_fitted"):
+                if isinstance(s.value, ast.Constant) and isinstance(s.value.value, bool):
+                    return s.value.value
+                return "some"
+        return None
+
+    def block(self, stmts, g):
+        for i, s in enumerate(stmts):
+            if g == BOTTOM:
+                break
+            if self.flag_assign(s) is True and not all(isinstance(x, ast.Return) for x in stmts[i + 1:]):
+                self.early = True
+            g = self.stmt(s, g)
+        return g
+
+    def _callee(self, f):
+        """(owner, fn) of a call `self.m(...)` / `super().m(...)` on a method of the table, 'ext', or None."""
+        if not isinstance(f, ast.Attribute):
+            return None
+        recv_self = isinstance(f.value, ast.Name) and f.value.id == "self"
+        recv_super = (isinstance(f.value, ast.Call) and isinstance(f.value.func, ast.Name)
+                      and f.value.func.id == "super")
+        if not (recv_self or recv_super):
+            return None
+        return self.t.find_method(self.k, f.attr, after=self.owner if recv_super else None)
+
+    def effect(self, e, g):
+        """Flag state after evaluating e: calls on self / super() may set the flag."""
+        if e is None:
+            return g
+        for n in ast.walk(e):
+            if isinstance(n, ast.Call):
+                r = self._callee(n.func)
+                if r is not None and r[0] != "ext":
+                    st = self.t._fit_status_of(self.k, r, self.stack)
+                    if st is not None and st[0] == "FF":
+                        if st[3] == "set":
+                            g = True
+                        elif st[3] == "some" and g is not True:
+                            g = "some"
+        return g
+
+    def stmt(self, s, g):
+        fa = self.flag_assign(s)
+        if fa is not None:
+            return fa
+        if isinstance(s, ast.Return):
+            if s.value is None:
+                self.rets.append(("none", g))
+                return BOTTOM
+            g = self.effect(s.value, g)
+            v = s.value
+            if isinstance(v, ast.Name) and v.id == "self":
+                self.rets.append(("self", g))
+                return BOTTOM
+            if isinstance(v, ast.Call):
+                r = self._callee(v.func)
+                if r is not None and r[0] != "ext":
+                    st = self.t._fit_status_of(self.k, r, self.stack)
+                    if st is not None and st[0] == "FF":
+                        self.rets.append((st[2], g))
+                        return BOTTOM
+                elif r is not None and v.func.attr == "fit":
+                    self.rets.append(("self", g))      # scikit-learn's fit returns self
+                    return BOTTOM
+            self.rets.append((ast.unparse(v)[:40], g))
+            return BOTTOM
+        if isinstance(s, ast.Raise):
+            return BOTTOM
+        if isinstance(s, ast.If):
+            g = self.effect(s.test, g)
+            return self.join(self.block(s.body, g), self.block(s.orelse, g))
+        if isinstance(s, (ast.For, ast.AsyncFor)):
+            g = self.effect(s.iter, g)
+            gb = self.block(s.body, g)
+            ge = self.block(s.orelse, g) if s.orelse else g
+            return self.join(g if gb == BOTTOM else self.join(g, gb), ge)
+        if isinstance(s, ast.While):
+            g = self.effect(s.test, g)
+            gb = self.block(s.body, g)
+            return g if gb == BOTTOM else self.join(g, gb)
+        if isinstance(s, (ast.With, ast.AsyncWith)):
+            for it in s.items:
+                g = self.effect(it.context_expr, g)
+            return self.block(s.body, g)
+        if isinstance(s, ast.Try):
+            gb = self.block(s.body, g)
+            outs = [self.block(s.orelse, gb) if gb != BOTTOM else BOTTOM]
+            for h in s.handlers:
+                outs.append(self.block(h.body, g))
+            r = BOTTOM
+            for o in outs:
+                r = self.join(r, o)
+            if s.finalbody:
+                r2 = self.block(s.finalbody, g if r == BOTTOM else r)
+                return BOTTOM if r == BOTTOM else r2
+            return r
+        if isinstance(s, (ast.FunctionDef, ast.AsyncFunctionDef, ast.ClassDef)):
+            return g
+        for ch in ast.iter_child_nodes(s):
+            if isinstance(ch, ast.expr):
+                g = self.effect(ch, g)
+        return g
+
+
 def _is_property(fn):
     for d in fn.decorator_list:
         if isinstance(d, ast.Name) and d.id == "property":
@@ -890,6 +1121,14 @@ def _store(st):
     return st[0]
 
 
+def _fit(f):
+    if f is None:
+        return "FNone"
+    if f[0] in ("FA", "FX"):
+        return "(%s %s)" % (f[0], cstr(f[1]))
+    return "(FF %s %s %s %s)" % (cstr(f[1]), cstr(f[2][:80]), cstr(f[3]), "true" if f[4] else "false")
+
+
 def _guard(g):
     if g[0] == "GU":
         return "(GU %s %s)" % (cstr(g[1]), cstr(g[2][:60]))
@@ -898,7 +1137,7 @@ def _guard(g):
 
 HEADER = """(* GENERATED by /verif/translator/classtable.py from %s -- do not edit, never committed.
    One row per estimator class of sktime (non-test modules): constructor facts and guard facts. *)
-From Coq Require Import List String.
+From Coq Require Import List String Bool.
 Require Import SkV.C04.Table.
 Import ListNotations.
 Open Scope string_scope.
@@ -915,10 +1154,20 @@ def to_coq(table):
             "(%s, %s)" % (cstr(p), _store(st)) for p, st in r["init"])
         meths = "[%s]" % "; ".join("(%s, %s)" % (cstr(m), _guard(g)) for m, g in r["methods"])
         muts = "[%s]" % "; ".join("(%s, %s, %s)" % (cstr(m), cstr(o), cstr(q)) for m, o, q in r["mutates"])
-        rows.append(" Row %s %s [%s]\n  %s\n  %s\n  %s" % (
+        rows.append(" Row %s %s [%s]\n  %s\n  %s\n  %s\n  %s" % (
             cstr(r["key"]), cstr(r["module"]), "; ".join(cstr(b) for b in r["bases"]), init, meths,
-            muts))
-    return HEADER % "sktime" + ";\n".join(rows) + "\n].\n"
+            muts, _fit(r["fit"])))
+    bf = table.base_facts()
+    base = (
+        "\n(* sktime/base/_base.py BaseEstimator: flag stored by __init__, is_fitted returns the flag,\n"
+        "   condition under which check_is_fitted raises, and the exception class it raises *)\n"
+        "Definition base_init_flag : option bool := %s.\n"
+        "Definition base_is_fitted_reads_flag : bool := %s.\n"
+        "Definition base_guard_raises (is_fitted : bool) : bool := %s.\n"
+        "Definition base_guard_exception : string := %s.\n" % (
+            "None" if bf["init_flag"] is None else "(Some %s)" % ("true" if bf["init_flag"] else "false"),
+            "true" if bf["reads"] else "false", bf["guard"], cstr(bf["raises"])))
+    return HEADER % "sktime" + ";\n".join(rows) + "\n].\n" + base
 
 
 _CACHE = {}
@@ -992,6 +1241,18 @@ def deviations(table, validators=()):
             sorted(mut, key=lambda d: (d["cls"], d["method"], d["param"])))
 
 
+def fit_deviations(table):
+    """Python mirror of Table.v fit_ok with an empty exception list: rows whose fit (own or inherited)
+    does not return self on every completing path with the fitted flag set last."""
+    return sorted(
+        [{"cls": r["key"], "module": r["module"], "owner": r["fit"][1], "returns": r["fit"][2][:80],
+          "flag": r["fit"][3], "early": r["fit"][4]}
+         for r in table.rows.values()
+         if r["fit"] is not None and r["fit"][0] == "FF"
+         and not (r["fit"][2] == "self" and r["fit"][3] == "set" and not r["fit"][4])],
+        key=lambda d: d["cls"])
+
+
 if __name__ == "__main__":
     import sys
     repo = sys.argv[1] if len(sys.argv) > 1 else "/repo"
@@ -1004,3 +1265,6 @@ if __name__ == "__main__":
         print("GUARD", d["cls"], d["owner"], d["method"], d["status"], d["what"])
     for d in mut:
         print("MUT  ", d["cls"], d["method"], d["owner"], d["param"])
+    for d in fit_deviations(t):
+        print("FIT  ", d["cls"], d["owner"], d["returns"], d["flag"], d["early"])
+    print("BASE ", t.base_facts())
